@@ -160,6 +160,9 @@ func (e *Evaluator) reading(clauses []*cypher.ReadingClause, rows []Env) ([]Env,
 				case nil:
 					// UNWIND null produces no rows
 				case []any:
+					if _, bound := r[rc.Unwind.Variable.Symbol]; bound {
+						return nil, ErrRuntime{"variable " + rc.Unwind.Variable.Symbol + " already declared"}
+					}
 					for _, it := range t {
 						ext := r.clone()
 						ext[rc.Unwind.Variable.Symbol] = it
@@ -193,6 +196,58 @@ func exprText(x cypher.Expression) string {
 		return fmt.Sprintf("%T", x)
 	}
 	return sb.String()
+}
+
+func (e *Evaluator) nonNil(rows []Env) []Env {
+	if rows == nil {
+		return []Env{}
+	}
+	return rows
+}
+
+// implicitKeys returns the maximal aggregate-free sub-expressions of an aggregating expression that mention a variable.
+func implicitKeys(x cypher.Expression) []cypher.Expression {
+	if !containsAggregate(x) {
+		mentions := false
+		walkExpr(x, func(n cypher.Expression) {
+			if _, ok := n.(*cypher.Variable); ok {
+				mentions = true
+			}
+		})
+		if mentions {
+			return []cypher.Expression{x}
+		}
+		return nil
+	}
+	var out []cypher.Expression
+	switch t := x.(type) {
+	case *cypher.FunctionInvocation:
+		if isAggregate(t) {
+			return nil
+		}
+		for _, a := range t.Arguments {
+			out = append(out, implicitKeys(a)...)
+		}
+	case *cypher.ArithmeticExpression:
+		out = append(out, implicitKeys(t.Left)...)
+		for _, p := range t.Partials {
+			out = append(out, implicitKeys(p.Right)...)
+		}
+	case *cypher.Parenthetical:
+		out = append(out, implicitKeys(t.Expression)...)
+	case *cypher.Comparison:
+		out = append(out, implicitKeys(t.Left)...)
+		for _, p := range t.Partials {
+			out = append(out, implicitKeys(p.Right)...)
+		}
+	case *cypher.UnaryAddOrSubtractExpression:
+		out = append(out, implicitKeys(t.Right)...)
+	case *cypher.Negation:
+		out = append(out, implicitKeys(t.Expression)...)
+	case *cypher.ProjectionItem:
+		out = append(out, implicitKeys(t.Expression)...)
+	}
+	return out
 }
 
 func containsAggregate(x cypher.Expression) bool {
@@ -268,8 +323,9 @@ func (e *Evaluator) project(p *cypher.Projection, rows []Env) (*projected, error
 	}
 
 	type outRow struct {
-		env  Env // projected columns
-		base Env // a source row (for ORDER BY expressions over pre-projection variables)
+		env   Env   // projected columns
+		base  Env   // a source row (for ORDER BY expressions over pre-projection variables / grouping keys)
+		group []Env // the rows of the group (aggregating projections), for aggregates inside ORDER BY
 	}
 	var out []outRow
 	if anyAgg {
@@ -279,6 +335,14 @@ func (e *Evaluator) project(p *cypher.Projection, rows []Env) (*projected, error
 		}
 		var groups []*group
 		index := map[string]*group{}
+		// openCypher: in an aggregating item, the maximal sub-expressions that contain no aggregate but mention a
+		// variable are grouping keys too (RETURN toInteger(n.value) + count(n) groups by toInteger(n.value)).
+		var implicit []cypher.Expression
+		for _, it := range items {
+			if it.agg {
+				implicit = append(implicit, implicitKeys(it.expr)...)
+			}
+		}
 		for _, r := range rows {
 			var key []any
 			for _, it := range items {
@@ -286,6 +350,13 @@ func (e *Evaluator) project(p *cypher.Projection, rows []Env) (*projected, error
 					continue
 				}
 				v, err := e.Eval(it.expr, r)
+				if err != nil {
+					return nil, err
+				}
+				key = append(key, v)
+			}
+			for _, ix := range implicit {
+				v, err := e.Eval(ix, r)
 				if err != nil {
 					return nil, err
 				}
@@ -333,7 +404,7 @@ func (e *Evaluator) project(p *cypher.Projection, rows []Env) (*projected, error
 				}
 				env[it.name] = v
 			}
-			out = append(out, outRow{env: env, base: nil})
+			out = append(out, outRow{env: env, base: base, group: e.nonNil(g.rows)})
 		}
 	} else {
 		for _, r := range rows {
@@ -360,8 +431,7 @@ func (e *Evaluator) project(p *cypher.Projection, rows []Env) (*projected, error
 			k := gm.CanonRow(row)
 			if !seen[k] {
 				seen[k] = true
-				o.base = nil // after DISTINCT only projected columns are in scope
-				kept = append(kept, o)
+				kept = append(kept, o) // ORDER BY may repeat a projected expression: it is evaluated on the first source row
 			}
 		}
 		out = kept
@@ -379,7 +449,11 @@ func (e *Evaluator) project(p *cypher.Projection, rows []Env) (*projected, error
 				scope[k] = v
 			}
 			for _, si := range p.Order.Items {
+				if o.group != nil {
+					e.group = o.group
+				}
 				v, err := e.Eval(si.Expression, scope)
+				e.group = nil
 				if err != nil {
 					return nil, err
 				}
